@@ -36,4 +36,4 @@ def nontrivial(case, obs):
 
 def describe(case, obs, stream):
     st = obs.get("stats") or {}
-    return [f"has:{k}" for k in ("writes_ok", "writes_alias", "shared_now", "collected", "failed_ops") if st.get(k)]
+    return [f"has:{k}" for k in ("writes_ok", "writes_alias", "shared_now", "collected", "failed_ops", "reuse") if st.get(k)]
